@@ -11,6 +11,7 @@ import Geo.Arith
 import Geo.Spec.Euclid
 import Geo.Spec.Shapes
 import Geo.Shapes
+import Geo.Constructions
 import Geo.Gen.Curve
 import Geo.Gen.Point
 open Geo
@@ -331,6 +332,25 @@ def dispatch (op : String) (args : List String) : String :=
         else Gen.line_direction (decide (f (Gen.line_direction_masks.getD 0 0) = 0)) (decide (f (Gen.line_direction_masks.getD 1 0) = 0)) f
       "ok " ++ showRVec [r 0, r 1, r 2]
     | none => "bad-op"
+  -- the Euclidean constructions of geometer/point.py as compositions of cross products (Geo.Constructions), over the Gaussian rationals
+  | "m.parallel2", [l, p] | "m.perpon2", [l, p] | "m.perpoff2", [l, p] | "m.project2", [l, p] | "m.mirror2", [l, p] =>
+    match parseVec l, parseVec p with
+    | some l, some p =>
+      let f : Nat → Q := fun k => l.getD k 0
+      let g : Nat → Q := fun k => p.getD k 0
+      let r : Nat → Q := match op with
+        | "m.parallel2" => parallel2 f g
+        | "m.perpon2" => perpOn2 f g
+        | "m.perpoff2" => perpOff2 f g
+        | "m.mirror2" => mirror2G f g
+        | _ => project2 f g
+      "ok " ++ showTens ⟨[3], #[r 0, r 1, r 2]⟩
+    | _, _ => "bad-op"
+  | "m.planefoot", [e, p] => match parseVec e, parseVec p with
+    | some e, some p =>
+      let r : Nat → Q := planeFoot (fun k => e.getD k 0) (fun k => p.getD k 0)
+      "ok " ++ showTens ⟨[4], #[r 0, r 1, r 2, r 3]⟩
+    | _, _ => "bad-op"
   | "ixmap", r :: comps => match r.toNat?, comps.mapM parseIx with
     | some r, some cs => showMapping (indexMapping r cs)
     | _, _ => "bad-op"
